@@ -228,6 +228,7 @@ class Generated:
         self.splices = []        # dicts
         self.items = []          # dicts (file, kind, name, repo_lines, sha256)
         self.files = {}          # file -> sha256
+        self.assumed_contracts = []
 
     def add(self, text, origin):
         for ln in text.split('\n'):
@@ -272,7 +273,7 @@ def template_variants(template_path):
     return names, vargs
 
 
-def load_template(template_path, depth=0, variant='main'):
+def load_template(template_path, depth=0, variant='main', assumed=False):
     """returns list of (text, unit, lineno); `//@ include <file>` is expanded in place
     (path relative to the contracts/ directory, i.e. the parent of units/)"""
     if depth > 5:
@@ -296,9 +297,14 @@ def load_template(template_path, depth=0, variant='main'):
             continue
         if s.startswith('//@') and s[3:].strip().startswith('include '):
             inc = s[3:].strip().split()[1]
-            out += load_template(os.path.join(croot, inc), depth + 1, variant)
+            out += load_template(os.path.join(croot, inc), depth + 1, variant, assumed)
+        elif s.startswith('//@') and s[3:].strip().startswith('include-assumed '):
+            # the functions of that file keep their contracts but are not verified in this unit
+            # (#[verifier::external_body]); they are verified in the unit named after the file name
+            toks = s[3:].strip().split()
+            out += load_template(os.path.join(croot, toks[1]), depth + 1, variant, toks[2] if len(toks) > 2 else True)
         else:
-            out.append((ln, unit, i + 1))
+            out.append((ln, unit, i + 1, assumed))
     return out
 
 
@@ -324,6 +330,7 @@ def instantiate(template_path, repo_root, variant='main'):
                 kind, file, name = toks[1], toks[2], toks[3]
                 cur = Extract(kind, file, name, parse_opts(toks[4:]), tl[i][2])
                 cur.unit = tl[i][1]
+                cur.assumed = tl[i][3]
                 blk = None
             elif cmd == 'end':
                 if cur is None:
@@ -342,13 +349,13 @@ def instantiate(template_path, repo_root, variant='main'):
                     raise ExtractError('%s:%d with outside rewrite' % (unit, tl[i][2]))
                 blk.with_lines = []
                 in_with = True
-            elif cmd in ('unit', 'rlimit') or cmd == '':
+            elif cmd in ('unit', 'rlimit', 'depends') or cmd == '':
                 pass
             else:
                 raise ExtractError('%s:%d unknown directive %s' % (unit, tl[i][2], cmd))
         else:
             if cur is None:
-                gen.add(ln, {'kind': 'template', 'unit': tl[i][1], 'line': tl[i][2]})
+                gen.add(ln, {'kind': 'template', 'unit': tl[i][1], 'line': tl[i][2], 'assumed': bool(tl[i][3])})
             elif blk is not None:
                 if in_with:
                     blk.with_lines.append(ln)
@@ -398,6 +405,12 @@ def emit_extract(gen, ex, repo_root, unit):
         return
 
     # ---- fn ----
+    assumed = getattr(ex, 'assumed', False)
+    if assumed:
+        b0 = Block('head', '', ex.lineno)
+        b0.lines = ['    #[verifier::external_body] // proved-in-unit: %s' % (assumed if isinstance(assumed, str) else 'u_graph')]
+        ex.blocks = [b0] + ex.blocks
+        gen.assumed_contracts.append({'function': ex.name, 'file': ex.file, 'proved_in': assumed if isinstance(assumed, str) else 'u_graph'})
     m_item = masked[start:end]
     rel_open = body_open - start
     # segments: list of [pos_in_item, kind, text, meta]; we collect insertions and replacements
@@ -412,10 +425,14 @@ def emit_extract(gen, ex, repo_root, unit):
             if len(occ) != cnt:
                 raise ExtractError('rewrite at %s:%d matches %d times (expected %d) in fn %s: %r'
                                    % (unit, b.lineno, len(occ), cnt, ex.name, before[:60]))
+            if assumed and any(p >= rel_open for p in occ):
+                continue  # body of an assumed (external_body) function stays verbatim
             for p in occ:
                 replaces.append((p, p + len(before), before, after))
             gen.rewrites.append({'item': ex.name, 'before': before, 'after': after, 'count': cnt,
                                  'at': '%s:%d' % (ex.file, line_of(src, start + occ[0]))})
+        elif assumed and b.kind in ('loop', 'before', 'after', 'tail', 'body'):
+            continue  # proof splices are meaningless in an unverified body
         elif b.kind == 'spec':
             # before the body `{`, after the where clause
             inserts.append((rel_open, order, '\n' + b.text() + '\n', b))
@@ -488,7 +505,7 @@ def emit_extract(gen, ex, repo_root, unit):
         raise ExtractError('round-trip mismatch for fn %s' % ex.name)
     # emit with source map
     out_first = len(gen.lines)
-    props = [p for p in str(ex.opts.get('props', '')).split(',') if p]
+    props = [p for p in str(ex.opts.get('props', '')).split(',') if p] if not getattr(ex, 'assumed', False) else []
     buf_line = ''
     buf_repo = None     # origin of the first non-blank repo text on the current output line
     buf_splice = None   # origin of the first non-blank splice text on the current output line
@@ -525,7 +542,7 @@ def emit_extract(gen, ex, repo_root, unit):
     out_last = len(gen.lines) - 1
     # labels: scan the emitted lines of this fn
     label = None
-    for li in range(out_first, out_last + 1):
+    for li in (range(out_first, out_last + 1) if not assumed else []):
         o = gen.origin[li]
         if o.get('kind') != 'splice':
             label = None
@@ -550,6 +567,8 @@ def emit_extract(gen, ex, repo_root, unit):
         if lb_info.get('_pending') == id(ex):
             lb_info['fn'] = fkey
             del lb_info['_pending']
+    if assumed:
+        return
     gen.functions[fkey] = {
         'file': ex.file, 'repo_lines': [first_line, last_line], 'props': props,
         'out_lines': [out_first + 1, out_last + 1], 'name': fkey}
